@@ -294,6 +294,7 @@ func VerifRunLoopConsts() [][2]any {
 		{"rl_DefaultHandshakeIdleTimeout", int64(protocol.DefaultHandshakeIdleTimeout)},
 		{"rl_DefaultIdleTimeout", int64(protocol.DefaultIdleTimeout)},
 		{"rl_MinRemoteIdleTimeout", int64(protocol.MinRemoteIdleTimeout)},
+		{"rl_ApplicationErrorErrorCode", int64(qerr.ApplicationErrorErrorCode)},
 	}
 }
 
